@@ -218,6 +218,92 @@ pub fn tls_cell(st: &State, t: &mut Toks) -> PResult<String> {
     out
 }
 
+/// TLSPLAIN <cert> <frame>: a server configured with a TLS identity; a peer that speaks plain text sends this frame as the
+/// first thing on a fresh TCP connection.  Observed: was any request handed to the handler, and what came back.
+pub fn tls_plain(st: &State, t: &mut Toks) -> PResult<String> {
+    let dict = st.dicts.get("b").ok_or_else(|| "dict b missing".to_string())?.clone();
+    let cert = t.next()?.to_string();
+    let frame = t.bytes()?;
+    let rt = rt();
+    let out = rt.block_on(async move {
+        let seen = Arc::new(Mutex::new(Vec::new()));
+        let addr = start_server(Some(cert.as_str()), Arc::clone(&dict), Arc::clone(&seen)).await?;
+        let mut s = TcpStream::connect(addr).await.map_err(|e| e.to_string())?;
+        let _ = s.write_all(&frame).await;
+        let mut got = Vec::new();
+        let mut buf = [0u8; 4096];
+        let deadline = tokio::time::Instant::now() + Duration::from_millis(1200);
+        loop {
+            match tokio::time::timeout_at(deadline, s.read(&mut buf)).await {
+                Ok(Ok(0)) | Ok(Err(_)) | Err(_) => break,
+                Ok(Ok(n)) => got.extend_from_slice(&buf[..n]),
+            }
+        }
+        // does what came back read as a Diameter message (version 1, a length that fits, decodable)?
+        let diameter_reply = got.len() >= 20 && got[0] == 1 && {
+            let l = ((got[1] as usize) << 16) | ((got[2] as usize) << 8) | got[3] as usize;
+            l >= 20 && l <= got.len() && DiameterMessage::decode_from(&mut Cursor::new(got[..l].to_vec()), Arc::clone(&dict)).is_ok()
+        };
+        let calls = seen.lock().unwrap().len();
+        let mut o = format!("TLSPLAIN calls={} diameter_reply={} reply_octets={} first=", calls, diameter_reply as u8, got.len());
+        hex(&mut o, &got[..got.len().min(8)]);
+        Ok::<String, String>(o)
+    });
+    rt.shutdown_timeout(Duration::from_millis(200));
+    out
+}
+
+/// TLSROT: ONE verifying client object over three connect() calls while the trust file it is pointed at changes: the CA that
+/// issued the server's certificate is in it, then is not, then is again.  Each connect() is judged by the trust store as it is
+/// at that moment.
+pub fn tls_rotate(st: &State, _t: &mut Toks) -> PResult<String> {
+    let dict = st.dicts.get("b").ok_or_else(|| "dict b missing".to_string())?.clone();
+    let dir = tls_dir();
+    let tmp = std::env::temp_dir().join(format!("dverif-trust-{}.pem", std::process::id()));
+    let with_ca = std::fs::read(format!("{}/bundle.crt", dir)).map_err(|e| e.to_string())?;
+    let without_ca = std::fs::read(format!("{}/decoy.crt", dir)).map_err(|e| e.to_string())?;
+    let before = std::env::var_os("SSL_CERT_FILE");
+    std::fs::write(&tmp, &with_ca).map_err(|e| e.to_string())?;
+    std::env::set_var("SSL_CERT_FILE", &tmp);
+    let rt = rt();
+    let tmp2 = tmp.clone();
+    let out = rt.block_on(async move {
+        let seen = Arc::new(Mutex::new(Vec::new()));
+        let addr = start_server(Some("match"), Arc::clone(&dict), Arc::clone(&seen)).await?;
+        let mut client = DiameterClient::new(&format!("localhost:{}", addr.port()), DiameterClientConfig { use_tls: true, verify_cert: true });
+        let mut o = String::from("TLSROT");
+        for (i, trust) in [&with_ca, &without_ca, &with_ca].iter().enumerate() {
+            std::fs::write(&tmp2, trust).map_err(|e| e.to_string())?;
+            let r = match tokio::time::timeout(Duration::from_millis(2500), client.connect()).await {
+                Ok(Ok(mut h)) => {
+                    let d2 = Arc::clone(&dict);
+                    tokio::spawn(async move { DiameterClient::handle(&mut h, d2).await; });
+                    let mut req = DiameterMessage::new(CommandCode::CreditControl, ApplicationId::CreditControl, 0x80, 70 + i as u32, 1, Arc::clone(&dict));
+                    req.add_avp(263, None, M, UTF8String::new(&format!("rot-{}", i)).into());
+                    match tokio::time::timeout(Duration::from_secs(3), client.send_message(req)).await {
+                        Ok(Ok(fut)) => match tokio::time::timeout(Duration::from_millis(2500), fut).await {
+                            Ok(Ok(_)) => "ok",
+                            _ => "ok-noanswer",
+                        },
+                        _ => "ok-sendfailed",
+                    }
+                }
+                Ok(Err(_)) => "refused",
+                Err(_) => "timeout",
+            };
+            let _ = write!(o, " c{}={}", i + 1, r);
+        }
+        Ok::<String, String>(o)
+    });
+    rt.shutdown_timeout(Duration::from_millis(200));
+    match before {
+        Some(v) => std::env::set_var("SSL_CERT_FILE", v),
+        None => std::env::remove_var("SSL_CERT_FILE"),
+    }
+    let _ = std::fs::remove_file(&tmp);
+    out
+}
+
 // ------------------------------------------------------------------ C10
 enum Conn {
     Plain(TcpStream),
@@ -303,6 +389,18 @@ async fn faulty_peer(addr: std::net::SocketAddr, tls: bool, dict: Arc<Dictionary
                 "oversized" => { let _ = c.write_all(&[1, 0xff, 0xff, 0xff, 0x80, 0, 1, 16]).await; }
                 "zero-length" => { let _ = c.write_all(&[1, 0, 0, 0]).await; }
                 "stall-midframe" => { let r = request(&dict, "stall", 1); let _ = c.write_all(&r[..r.len() / 2]).await; }
+                "deep-nesting" => {
+                    // one legal-size frame (just under 1 MiB) of Grouped AVPs nested as deep as it can hold (about 131 000 levels)
+                    let levels = 131_000usize;
+                    let mut f = Vec::with_capacity(20 + 8 * levels);
+                    let total = 20 + 8 * levels;
+                    f.extend_from_slice(&[1, (total >> 16) as u8, (total >> 8) as u8, total as u8, 0x80, 0, 1, 16, 0, 0, 0, 4, 0, 0, 0, 1, 0, 0, 0, 2]);
+                    for k in 0..levels {
+                        let l = 8 * (levels - k);
+                        f.extend_from_slice(&[0, 0, 1, 200, 0x40, (l >> 16) as u8, (l >> 8) as u8, l as u8]);   // 456 Multiple-Services-Credit-Control (Grouped)
+                    }
+                    let _ = c.write_all(&f).await;
+                }
                 "handler-panic" => { let _ = c.write_all(&request(&dict, "PANIC-now", 2)).await; }
                 "handler-panic-sync" => { let _ = c.write_all(&request(&dict, "SYNCPANIC-now", 2)).await; }
                 "announce-leave" => {
